@@ -11,6 +11,7 @@ import (
 	"path/filepath"
 	"strings"
 
+	"massnet.org/mass-wallet/masswallet"
 	"vh/env"
 	"vh/proto"
 	"vh/world"
@@ -45,6 +46,10 @@ type Opts struct {
 	// NewAddr adds NewAddress calls for wallet A (at most two per history; used as a fault
 	// target by C18 and a crash target by C06).
 	NewAddr bool `json:"new_addr"`
+	// Batch > 0: one rescan batch of an import covers Batch heights instead of 1000 (hook
+	// variable read through the harness's source overlay), so that imports over short
+	// chains take several batches with events between them.
+	Batch uint64 `json:"batch"`
 	// Games adds the C10 oracle (staking/binding histories, withdrawal sequences).
 	Games bool `json:"games"`
 }
@@ -219,6 +224,10 @@ func (m *Model) Enabled(w *world.World) []string {
 // Run implements proto.Model.
 func (m *Model) Run(hist []string) *proto.Result {
 	r := &proto.Result{Info: map[string]int{}}
+	masswallet.VerifImportBatch = 1000
+	if m.O.Batch > 0 {
+		masswallet.VerifImportBatch = m.O.Batch
+	}
 	w, dir, err := m.world()
 	defer os.RemoveAll(dir)
 	if err != nil {
